@@ -7,7 +7,7 @@ import torch
 from hypothesis import strategies as st
 
 from vlib import aggs, relations as rel
-from vlib.matrices import SEEDS, build, eps_of, smax
+from vlib.matrices import case_tensor, widened, SEEDS, build, eps_of, smax
 from vlib.runner import RAISED, Outcome, Part
 
 ID = "C10"
@@ -91,15 +91,20 @@ def _case(draw, tier="quick"):
             fams += ["dup", "grid", "zero_rows"]
         if name == "GradDrop":
             fams += ["zero_rows", "zero_rows"]  # an objective with an exactly-zero gradient (tie-insensitive here)
-        if name in ("Krum", "TrimmedMean") and draw(st.sampled_from([True, False, False])):
+        if name in ("Krum", "TrimmedMean", "Mean", "Sum", "GradDrop") and draw(st.sampled_from([True, False, False])):
             fams = ["many-rows"]
         fam = draw(st.sampled_from(fams))
         if fam == "many-rows":
             # dozens of workers: rows sharing a large common component (Krum) / a few rows with huge outliers (TrimmedMean)
-            m = draw(st.integers(26, 44))
+            # (a few far beyond the block / kernel-switch sizes of batched distance and sort implementations)
+            m = draw(st.sampled_from([draw(st.integers(26, 44))] * 6 + [70, 130, 260, 300, 520, 1100]))
             n = draw(st.sampled_from([4, 8, 16]))
             J = rng.standard_normal((m, n)) * rng.uniform(0.3, 3.0, size=(m, 1))
-            if name == "Krum":
+            if name == "GradDrop" and "leak" in spec:
+                spec["leak"] = rng.uniform(0, 1, size=m).tolist()
+            if name in ("Mean", "Sum", "GradDrop"):
+                pass
+            elif name == "Krum":
                 J = J + 10.0 ** draw(st.sampled_from([3, 4])) * np.sign(rng.standard_normal(n))
                 spec["f"] = draw(st.integers(0, 5))
                 spec["k"] = draw(st.integers(1, 3))
@@ -127,7 +132,7 @@ def _case(draw, tier="quick"):
 
 def parts(tier):
     n = 3_000 if tier == "quick" else 60_000
-    return [Part("generated", "given", n=n, strategy=lambda: _case(tier))]
+    return [Part("generated", "given", n=n, strategy=lambda: widened(_case(tier), light=True))]
 
 
 def _permuted_spec(spec, pi):
@@ -150,7 +155,7 @@ def run_case(case) -> Outcome:
     name = spec["name"]
     eps = eps_of(dtype)
     tdt = getattr(torch, dtype)
-    Jt = torch.tensor(case["J"], dtype=tdt)
+    Jt = case_tensor(case, tdt)
     J = Jt.double().numpy()
     m, n = J.shape
     s = smax(J)
